@@ -323,18 +323,48 @@ def gen_c07(tier):
     return g
 
 
+C11_V3_QUICK = ["publish_q1_t1_p1", "publish_q0_t0_p0", "publish_q2_t3_p1_dup_ret", "suback_1", "suback_3", "connect_v311_f02_c1", "connect_v311_f0e_c1_w1_1",
+                "connect_v311_fc2_c1_u1_p1", "unsubscribe_2", "unsubscribe_1_1", "subscribe_1", "connect_v310_f02_c1"]
+
+
 def gen_c11(tier):
+    """v3: the value the strict decoder returned is fed to its streaming encoder (direct).  v5: reading a
+    property-bearing value back out of the decoder's result does not decide (1.1-1.4 M steps, solver out of
+    memory, measured for every v5 shape), so the obligation is split at the value: (a) the decode query of a
+    shape shows every returned field equals the specification's value of the frame cells, (b) the encode query
+    of the same shape shows a value with those fields is written as exactly those cells; for accepted
+    non-canonical spellings (a) alone plus (b) of the canonical sibling."""
     def g(srcdir):
-        m = G.Module("g_c11", "C11: accepted input re-encodes (body level) to at most the consumed bytes, canonical frames to themselves")
+        m = G.Module("g_c11", "C11: accepted input re-encodes to at most the consumed bytes, canonical frames to themselves")
         v3 = SH.v3_shapes("quick")
         v5 = SH.v5_shapes("quick")
-        pick = [sh for sh in v3 + v5 if not sh.malformed_by_shape and "(p)" in sh.variant
-                and sh.fam + sh.typ not in ("v3Puback", "v3Pubrec", "v3Pubrel", "v3Pubcomp", "v3Unsuback", "v3Connack")]
+        ok3 = [sh for sh in v3 if not sh.malformed_by_shape and "(p)" in sh.variant
+               and sh.typ not in ("Puback", "Pubrec", "Pubrel", "Pubcomp", "Unsuback", "Connack")]
+        # two-filter SUBSCRIBE read back out of the result: 1.09 M steps, solver out of memory at 8 GB (measured)
+        ok3 = [sh for sh in ok3 if not (sh.typ == "Subscribe" and sh.name.count("_") >= 2)]
         if tier == "quick":
-            pick = [sh for i, sh in enumerate(pick) if i % 2 == 0 or not sh.canonical]
-        for sh in pick:
+            ok3 = [sh for sh in ok3 if sh.name in C11_V3_QUICK]
+        for sh in ok3:
             fn, code, w, unwind, meta = G.emit_reenc(sh)
             m.add(fn, code, w, unwind, meta=meta)
+        small = ("Puback", "Pubrec", "Pubrel", "Pubcomp", "Suback", "Unsuback", "Disconnect", "Auth", "Subscribe", "Unsubscribe")
+        acc5 = [sh for sh in v5 if not sh.malformed_by_shape]
+        if tier == "quick":
+            pick = [sh for sh in acc5 if sh.typ in small] + one_per_type(encodable(v5))
+        else:
+            pick = acc5
+        seen = set()
+        for sh in pick:
+            if sh.name in seen:
+                continue
+            seen.add(sh.name)
+            fn, code, w, unwind, meta = G.emit_dec(sh, prop="C11")
+            meta["mode"] = "C11 (a): decoded fields = specification values of the frame cells"
+            m.add(fn, code, w, unwind, meta=meta)
+            if sh.ctor is not None and sh.canonical:
+                fn, code, w, unwind, meta = G.emit_enc(sh, prop="C11", level="body", want_bytes=not sh.b.order_free)
+                meta["mode"] = "C11 (b): a value with those fields is written as exactly the frame cells"
+                m.add(fn, code, w, unwind, stubs=G.STUBS_ENCODE, meta=meta)
         m.write(srcdir)
     return g
 
